@@ -145,6 +145,11 @@ def judge(case, acc, ctx):
             fh.write(data)
         context = kd if ctxform == "path" else json.dumps({"keys_directory": kd})
         raised = None
+        earlier = (kid + len(data)) % 4 == 1
+        if earlier:
+            # the build directory is not fresh: a longer file (an earlier, larger result) already lies at the output path
+            with open(out, "wb") as fh:
+                fh.write(data + bytes(range(256)) * 2)
         try:
             if route == "main":
                 sut.sign_single(inp, out, kname, kid, alg, context)
@@ -160,12 +165,12 @@ def judge(case, acc, ctx):
             raised = e
         fixed, named = [k for k in cb.loads(data).value.keys() if isinstance(k, int)], [k for k in cb.loads(data).value.keys() if isinstance(k, str)]
         rich = bool(named) or any(k in fixed for k in (15, 16, 17, 18, 20, 23))
-        classes = [f"alg:{alg}", f"enc:{enc}", f"ctx:{ctxform}", f"route:{route}", f"kid:{kid_class(kid)}"] + (["rich-envelope"] if rich else []) + (["key-name:dotted"] if kname != "signer" else [])
+        classes = [f"alg:{alg}", f"enc:{enc}", f"ctx:{ctxform}", f"route:{route}", f"kid:{kid_class(kid)}"] + (["rich-envelope"] if rich else []) + (["key-name:dotted"] if kname != "signer" else []) + (["earlier-longer-file-at-output-path"] if earlier else [])
         if raised is not None:
             if enc == "der" and (alg == "hash-eddsa" or not case.get("strict_der")):
                 # (hash-eddsa with a DER key file is refused on the unchanged tree: the key file is re-read as text)
                 acc.case(classes=classes + [f"rejected_der:{type(raised).__name__}"])
-                if os.path.exists(out):
+                if os.path.exists(out) and not earlier:
                     raise Violation(f"signing raised {type(raised).__name__} but wrote an output file", "no output")
                 return
             acc.case(classes=classes)
@@ -340,7 +345,7 @@ def replay(ctx, check, case):
 
 def finalize(ctx, m, ev):
     c = m["counters"]
-    need = [f"alg:{a}" for a in CO.ALGS] + ["enc:der", "ctx:json", "route:cli", "rich-envelope", "storm-leading-zero", "kid:b0", "kid:b4294967295", "history"]
+    need = [f"alg:{a}" for a in CO.ALGS] + ["enc:der", "ctx:json", "route:cli", "rich-envelope", "storm-leading-zero", "kid:b0", "kid:b4294967295", "history", "earlier-longer-file-at-output-path"]
     for n in need:
         if not c.get(n):
             raise boot.HarnessError(f"interesting class {n} is empty")
